@@ -1230,7 +1230,7 @@ class World:
         args, kwargs = self.eval_args(e, ctx, fv)
         return self.call_external(key, None, args, kwargs, e, ctx, fv)
 
-    # ---- string methods (models validated against CPython by axcheck.py)
+    # ---- string methods (T-STRLIB models; the same contracts are evaluated natively on real runs as a cross-check)
     def str_method(self, s, m, e, ctx, fv):
         args = [fv.eval(a, ctx) for a in e.args]
         t = s.t
